@@ -8,7 +8,7 @@
    PART C: start_polling/stop_polling pairs.
    NOT covered (property is claimed partial): MPI's own progress, the visibility of received data,
    liveness of the poller (that somebody keeps polling), poll_singlethreaded. *)
-From Coq Require Import List Arith NArith.
+From Coq Require Import List Arith NArith Bool.
 From Pika Require Import Base.Conc Gen.GenMpi Model.Mpi Proofs.MpiProofs.
 Import ListNotations.
 
